@@ -32,7 +32,7 @@ var codeToHTTPStatus = [...]int{
 }
 
 func HTTPStatusCode(c codes.Code) int {
-	if int(c) > len(codeToHTTPStatus) {
+	if int(c) >= len(codeToHTTPStatus) {
 		return http.StatusInternalServerError
 	}
 	return codeToHTTPStatus[c]
@@ -60,7 +60,7 @@ var codeToWSStatus = [...]ws.StatusCode{
 }
 
 func WSStatusCode(c codes.Code) ws.StatusCode {
-	if int(c) > len(codeToHTTPStatus) {
+	if int(c) >= len(codeToWSStatus) {
 		return ws.StatusInternalServerError
 	}
 	return codeToWSStatus[c]
